@@ -44,8 +44,12 @@ private:
 		template <typename ...Args>
 		auto operator() (Args && ...args) const
 			-> typename std::enable_if<internal_::CanInvoke<Callback, Args ...>::value, void>::type {
-			if(--data->triggerCount <= 0) {
+			// Don't decrement once the count is due: --triggerCount would overflow for INT_MIN.
+			if(data->triggerCount <= 1) {
 				data->dispatcher.removeListener(data->event, data->handle);
+			}
+			else {
+				--data->triggerCount;
 			}
 			data->listener(std::forward<Args>(args)...);
 		}
@@ -127,8 +131,12 @@ private:
 		template <typename ...Args>
 		auto operator() (Args && ...args) const
 			-> typename std::enable_if<internal_::CanInvoke<Callback, Args ...>::value, void>::type {
-			if(--data->triggerCount <= 0) {
+			// Don't decrement once the count is due: --triggerCount would overflow for INT_MIN.
+			if(data->triggerCount <= 1) {
 				data->callbackList.remove(data->handle);
+			}
+			else {
+				--data->triggerCount;
 			}
 			data->listener(std::forward<Args>(args)...);
 		}
